@@ -11,3 +11,7 @@ pub proof fn lemma_scalars_bytes_step(rs: Seq<Scalar>, k: int)
 }
 pub broadcast axiom fn ax_cp_bytes_len(c: CP) ensures #[trigger] cp_bytes(c).len() == 32;
 pub open spec fn promise_val(p: Option<u64>) -> u64 { match p { Some(v) => v, None => 0 } }
+// ASCII string literals used as labels: their UTF-8 bytes are the corresponding byte-string literals (Verus does not reason about str bytes)
+pub broadcast axiom fn ax_label_bytes()
+    ensures #[trigger] "witness".spec_bytes() == b"witness"@, "eta".spec_bytes() == b"eta"@, "d".spec_bytes() == b"d"@, "alpha".spec_bytes() == b"alpha"@,
+        "dL".spec_bytes() == b"dL"@, "dR".spec_bytes() == b"dR"@;
